@@ -348,8 +348,14 @@ class InterpolatableFunction(ABC):
         else:
             ## Now we have something to extrapolate
 
-            xLower = x <= self._rangeMin
-            xUpper = x >= self._rangeMax
+            ## Direct evaluations below can trigger an adaptive update that replaces
+            ## the table. Every element of this call must be extrapolated from the
+            ## table the masks refer to, so remember it.
+            rangeMin, rangeMax = self._rangeMin, self._rangeMax
+            interpolatedFunction = self._interpolatedFunction
+
+            xLower = x <= rangeMin
+            xUpper = x >= rangeMax
 
             # Figure out shape of the result. If we are vector valued, need an extra axis
             if self._RETURN_VALUE_COUNT > 1:
@@ -363,26 +369,26 @@ class InterpolatableFunction(ABC):
                 match self.extrapolationTypeLower:
                     case EExtrapolationType.ERROR:
                         # TODO better error message, this is nonsensible if x is array or list
-                        raise ValueError(f"Out of bounds: {x} < {self._rangeMin}")
+                        raise ValueError(f"Out of bounds: {x} < {rangeMin}")
                     case EExtrapolationType.NONE:
                         res[xLower] = self._evaluateDirectly(x[xLower])
                     case EExtrapolationType.CONSTANT:
-                        res[xLower] = self.evaluateInterpolation(self._rangeMin)
+                        res[xLower] = np.asarray(interpolatedFunction(rangeMin))
                     case EExtrapolationType.FUNCTION:
-                        res[xLower] = self.evaluateInterpolation(x[xLower])
+                        res[xLower] = np.asarray(interpolatedFunction(x[xLower]))
 
             ## Upper range
             if np.any(xUpper):
                 match self.extrapolationTypeUpper:
                     case EExtrapolationType.ERROR:
                         # TODO better error message, this is nonsensible if x is array or list
-                        raise ValueError(f"Out of bounds: {x} > {self._rangeMax}")
+                        raise ValueError(f"Out of bounds: {x} > {rangeMax}")
                     case EExtrapolationType.NONE:
                         res[xUpper] = self._evaluateDirectly(x[xUpper])
                     case EExtrapolationType.CONSTANT:
-                        res[xUpper] = self.evaluateInterpolation(self._rangeMax)
+                        res[xUpper] = np.asarray(interpolatedFunction(rangeMax))
                     case EExtrapolationType.FUNCTION:
-                        res[xUpper] = self.evaluateInterpolation(x[xUpper])
+                        res[xUpper] = np.asarray(interpolatedFunction(x[xUpper]))
 
         return res
 
